@@ -108,6 +108,8 @@ theorem C10_step_refines (st : St) (r : Ref) (op : Op) (h : Inv st r) :
   | sendStanza b => exact ⟨rfl, push_inv st r b h⟩
   | sendRaw b => exact ⟨rfl, push_inv st r b h⟩
   | sendNonza b => exact ⟨rfl, h⟩
+  | req b => exact ⟨rfl, h⟩
+  | inbound => exact ⟨rfl, h⟩
   | ack a =>
     obtain ⟨hq, hl, hd⟩ := h
     have hlen : r.held.length = r.accepted.length - r.delivered := by simp [Ref.held]
@@ -169,6 +171,10 @@ theorem C10_retransmit_in_order_then_r (st : St) (r : Ref) (a : Nat) (h : Inv st
 /-- Acknowledgement requests and answers are written but never held or counted. -/
 theorem C10_nonza_never_held (st : St) (b : String) : (step st (.sendNonza b)) = (st, [b]) := rfl
 
+/-- The answer to the server's `<r/>` is written but never held or counted either (it goes through `Send` as an
+`SMAnswer`, not through the storing path). -/
+theorem C10_answer_never_held (st : St) (b : String) : (step st (.req b)) = (st, [b]) := rfl
+
 /-- The run-time oracle accepts the model at every step of every history. -/
 theorem C10_oracle_accepts_model (st : St) (r : Ref) (op : Op) (h : Inv st r) :
     (holdsStep r op ⟨(step st op).2, (step st op).1.q⟩).1 = true := by
@@ -195,4 +201,5 @@ end XmppVerif.Props.C10
 #print axioms XmppVerif.Props.C10.C10_ack_drops_exactly
 #print axioms XmppVerif.Props.C10.C10_retransmit_in_order_then_r
 #print axioms XmppVerif.Props.C10.C10_nonza_never_held
+#print axioms XmppVerif.Props.C10.C10_answer_never_held
 #print axioms XmppVerif.Props.C10.C10_oracle_accepts_model
